@@ -7,8 +7,8 @@ CONSTANTS
   Prio <- PrioC
   MaxEnv = 3
   MaxT = 6
-  MaxConn = 1
-  MaxFail = 1
+  MaxConn = 0
+  MaxFail = 0
   MaxIo = 1
   FixStaleEffect = TRUE
   FixLockRelease = TRUE
@@ -23,4 +23,5 @@ INVARIANT Budget
 INVARIANT EndsIdle
 INVARIANT NoTimerLeak
 INVARIANT NoOverflow
+PROPERTY Live
 PROPERTY NoWriteAfterAnswer
